@@ -123,4 +123,27 @@ structure MunmapLen where
   sizePow : Nat
   deriving DecidableEq, Repr, Inhabited
 
+inductive StorageKind | heap | stack
+  deriving DecidableEq, Repr, Inhabited
+
+/-- One `split` / `split_mut` of `impl_splits!`: which published indices it resets to 0, which liveness flags it sets,
+which iterators it creates (in tuple order) and how it wraps the buffer. -/
+structure SplitInfo where
+  storage : StorageKind
+  withWorker : Bool
+  resets : List Fld
+  alive : List Role
+  iters : List Role
+  bufRef : String
+  deriving DecidableEq, Repr, Inhabited
+
+/-- What a buffer's `_from` puts into its fields. -/
+structure BufInit where
+  idxZero : Bool          -- the three published indices start at 0
+  flagsFalse : Bool       -- the three liveness flags start false
+  counterZero : Bool      -- the counter of live iterators starts at 0
+  lenIsStorageLen : Bool  -- `inner_len` is the storage's length
+  refusesEmpty : Bool     -- `assert!(value.len() > 0)`
+  deriving DecidableEq, Repr, Inhabited
+
 end MRB
